@@ -5,5 +5,7 @@ cp $f /tmp/mut_backup.go
 sed -i "$@" $f
 if cmp -s $f /tmp/mut_backup.go; then echo "MUTATION DID NOT APPLY"; fi
 (cd /repo && go build ./$(dirname ${f#/repo/}) 2>&1 | head -3)
+cp /verif/evidence/$prop.json /tmp/mut_evidence.bak 2>/dev/null
 /verif/bin/govc check --prop $prop 2>&1 | grep -E "FAILED|UNDECIDED|VACUOUS|violations" | cut -c1-220
 cp /tmp/mut_backup.go $f
+cp /tmp/mut_evidence.bak /verif/evidence/$prop.json 2>/dev/null
